@@ -549,6 +549,29 @@ func init() {
 		return m.load(c.args[0].(PtrVal)), stNext
 	})
 
+	// math/rand.Shuffle: every permutation is explored (Fisher-Yates with a choice per step)
+	reg("math/rand.Shuffle", func(m *Machine, g *Goroutine, c *callCtx) (Value, stepStatus) {
+		n := int(cint(c.args[0], "Shuffle n"))
+		swap := c.args[1].(FuncVal)
+		var step func(i int)
+		step = func(i int) {
+			if i <= 0 {
+				c.deliver(nil)
+				return
+			}
+			j := m.choose(i+1, "shuffle")
+			m.callClosure(g, swap, []Value{mkInt(int64(i)), mkInt(int64(j))}, func(Value) { step(i - 1) })
+		}
+		if n <= 1 {
+			return nil, stNext
+		}
+		if n > 4 {
+			panic(abortf("rand.Shuffle of %d elements exceeds the model's bound (4)", n))
+		}
+		step(n - 1)
+		return nil, stStay
+	})
+
 	// ---------- context ----------
 	regV("context.Background", func(m *Machine, g *Goroutine, a []Value) Value { return m.ctxIface(m.bgCtx()) })
 	regV("context.TODO", func(m *Machine, g *Goroutine, a []Value) Value { return m.ctxIface(m.bgCtx()) })
